@@ -77,10 +77,10 @@ func (pe *PathEnum) V(v ssa.Value) ssa.Value {
 
 // C canonicalises a value seen in the current (possibly inlined) frame.
 func (pe *PathEnum) C(v ssa.Value) ssa.Value {
-	if pe.cur == nil {
-		return v
+	if pe.cur != nil {
+		v = pe.cur.Canon(v)
 	}
-	return pe.cur.Canon(v)
+	return structResolver{pe.vals}.resolveField(pe.cur, v)
 }
 
 // Known reports a boolean value decided on the current path (helper result,
